@@ -20,10 +20,22 @@ pub fn build(family: &str, rng: &mut Rng, index: u64) -> Option<Plan> {
 		"F4" => Some(f4(rng, index)),
 		"F4g" => f4g(index),
 		"F4c" => f4c(index),
+		"F4t" => f4t(index),
 		"F1o" => f1o(index),
 		"F1s" => f1s(index),
 		// issuance swarm: standard hooks (C01/C04/C05/C13) and generated hook tables (C10)
-		"F1" => Some(super::f1::build(rng, &super::f1::F1Opts { max_certs: 3, max_ids: 8, generated_hooks: false, hard_hook_failures: false, owners: true, eab: true, allow_rsa4096: index % 97 == 0 })),
+		"F1" => Some(super::f1::build(
+			rng,
+			&super::f1::F1Opts {
+				max_certs: 3,
+				max_ids: 8,
+				generated_hooks: false,
+				hard_hook_failures: false,
+				owners: true,
+				eab: true,
+				allow_rsa4096: index % 97 == 0,
+			},
+		)),
 		"F6" => Some(super::f6::random(rng)),
 		"F6x" => super::f6::exhaustive(index),
 		"F6c" => Some(super::f6::crash_mid_save(rng)),
@@ -32,7 +44,18 @@ pub fn build(family: &str, rng: &mut Rng, index: u64) -> Option<Plan> {
 		"F7" => Some(f7(rng, index)),
 		"F5" => Some(f5(rng, index)),
 		"F1w" => Some(f1w(rng, index)),
-		"F1h" => Some(super::f1::build(rng, &super::f1::F1Opts { max_certs: 1 + (index % 2), max_ids: 4, generated_hooks: true, hard_hook_failures: index % 3 == 0, owners: false, eab: false, allow_rsa4096: false })),
+		"F1h" => Some(super::f1::build(
+			rng,
+			&super::f1::F1Opts {
+				max_certs: 1 + (index % 2),
+				max_ids: 4,
+				generated_hooks: true,
+				hard_hook_failures: index % 3 == 0,
+				owners: false,
+				eab: false,
+				allow_rsa4096: false,
+			},
+		)),
 		"F3" => Some(f3(rng, index)),
 		"F3m" => Some(f3m(rng, index)),
 		_ => None,
@@ -75,7 +98,10 @@ pub fn grid_base(variant: u64, attempts: u32) -> Plan {
 		name: Some("grid".into()),
 		account: "acc".into(),
 		endpoint: "ep0".into(),
-		identifiers: vec![ident("a.grid.sim", "http-01"), ident("b.grid.sim", "dns-01")],
+		identifiers: vec![
+			ident("a.grid.sim", "http-01"),
+			ident("b.grid.sim", "dns-01"),
+		],
 		key_type: Some("ecdsa-p256".into()),
 		kp_reuse: Some(kp_reuse),
 		hooks: names,
@@ -220,7 +246,10 @@ pub fn error_kinds() -> Vec<FaultKind> {
 /// F2p: every POST position x every error answer x run length 1..12 (exhaustive grid)
 fn f2p(index: u64) -> Option<Plan> {
 	let kinds = error_kinds();
-	let g = grid(index, &[POST_POSITIONS.len() as u64, kinds.len() as u64, 12])?;
+	let g = grid(
+		index,
+		&[POST_POSITIONS.len() as u64, kinds.len() as u64, 12],
+	)?;
 	let (class, nth) = POST_POSITIONS[g[0] as usize];
 	let mut p = grid_base(0, 1);
 	p.faults.push(Fault {
@@ -232,7 +261,13 @@ fn f2p(index: u64) -> Option<Plan> {
 		kind: kinds[g[1] as usize].clone(),
 		..Default::default()
 	});
-	p.note = format!("F2p {}#{} x {} x run {}", class, nth, super::super::ca::fault_name(&kinds[g[1] as usize]), g[2] + 1);
+	p.note = format!(
+		"F2p {}#{} x {} x run {}",
+		class,
+		nth,
+		super::super::ca::fault_name(&kinds[g[1] as usize]),
+		g[2] + 1
+	);
 	Some(p)
 }
 
@@ -268,12 +303,33 @@ pub fn net_fault_kinds() -> Vec<FaultKind> {
 	v.push(FaultKind::Refuse);
 	v.push(FaultKind::ResetAfter);
 	v.push(FaultKind::Delay { ms: 90_000 });
-	v.push(FaultKind::DropHeader { name: "Location".into() });
-	v.push(FaultKind::DropHeader { name: "Replay-Nonce".into() });
+	v.push(FaultKind::DropHeader {
+		name: "Location".into(),
+	});
+	v.push(FaultKind::DropHeader {
+		name: "Replay-Nonce".into(),
+	});
 	v.push(FaultKind::BadNonceHeader);
 	v.push(FaultKind::NotJson);
-	for f in ["status", "authorizations", "finalize", "identifier", "identifiers", "challenges", "certificate", "newNonce", "newAccount", "newOrder", "keyChange", "orders"].iter() {
-		v.push(FaultKind::DropField { name: f.to_string() });
+	for f in [
+		"status",
+		"authorizations",
+		"finalize",
+		"identifier",
+		"identifiers",
+		"challenges",
+		"certificate",
+		"newNonce",
+		"newAccount",
+		"newOrder",
+		"keyChange",
+		"orders",
+	]
+	.iter()
+	{
+		v.push(FaultKind::DropField {
+			name: f.to_string(),
+		});
 	}
 	for (f, val) in [
 		("status", serde_json::json!("bogus")),
@@ -296,7 +352,9 @@ pub fn net_fault_kinds() -> Vec<FaultKind> {
 		});
 	}
 	for what in ["garbage", "empty", "other_key", "truncated", "not_utf8"].iter() {
-		v.push(FaultKind::CertBody { what: what.to_string() });
+		v.push(FaultKind::CertBody {
+			what: what.to_string(),
+		});
 	}
 	v
 }
@@ -317,12 +375,30 @@ fn f2(index: u64) -> Option<Plan> {
 		kind: kinds[g[2] as usize].clone(),
 		..Default::default()
 	});
-	p.note = format!("F2 base {} {}#{} x {}", g[0], class, nth, super::super::ca::fault_name(&kinds[g[2] as usize]));
+	p.note = format!(
+		"F2 base {} {}#{} x {}",
+		g[0],
+		class,
+		nth,
+		super::super::ca::fault_name(&kinds[g[2] as usize])
+	);
 	Some(p)
 }
 
 const CLASSES: [&str; 13] = [
-	"directory", "newNonce", "newAccount", "newOrder", "authz", "challenge", "authzPoll", "orderPollReady", "finalize", "orderPollValid", "certificate", "account", "keyChange",
+	"directory",
+	"newNonce",
+	"newAccount",
+	"newOrder",
+	"authz",
+	"challenge",
+	"authzPoll",
+	"orderPollReady",
+	"finalize",
+	"orderPollValid",
+	"certificate",
+	"account",
+	"keyChange",
 ];
 
 /// F3: random multi-fault sequences (1..6 network/CA faults placed inside operations) over 1..4
@@ -332,10 +408,13 @@ fn f3(rng: &mut Rng, _index: u64) -> Plan {
 	let mut p = grid_base(rng.below(4), 1);
 	let n_ids = rng.range(1, 3) as usize;
 	let chs = ["http-01", "dns-01", "tls-alpn-01"];
-	p.config.certificates[0].identifiers = (0..n_ids).map(|i| ident(&format!("n{}.f3.sim", i), chs[rng.below(3) as usize])).collect();
+	p.config.certificates[0].identifiers = (0..n_ids)
+		.map(|i| ident(&format!("n{}.f3.sim", i), chs[rng.below(3) as usize]))
+		.collect();
 	p.config.certificates[0].key_type = Some(CHEAP_KEY_TYPES[rng.below(5) as usize].to_string());
 	if !p.world.pre_files.is_empty() {
-		p.world.pre_files[0].content = format!("key:{}", p.config.certificates[0].key_type.clone().unwrap());
+		p.world.pre_files[0].content =
+			format!("key:{}", p.config.certificates[0].key_type.clone().unwrap());
 	}
 	p.config.accounts[0].key_type = Some(CHEAP_KEY_TYPES[rng.below(5) as usize].to_string());
 	p.sched = default_sched(rng);
@@ -349,7 +428,11 @@ fn f3(rng: &mut Rng, _index: u64) -> Plan {
 			ca: 0,
 			class: class.into(),
 			nth: rng.range(1, 4),
-			count: if rng.chance(1, 4) { rng.range(2, 12) } else { 1 },
+			count: if rng.chance(1, 4) {
+				rng.range(2, 12)
+			} else {
+				1
+			},
 			kind: kinds[rng.below(kinds.len() as u64) as usize].clone(),
 			..Default::default()
 		});
@@ -357,9 +440,17 @@ fn f3(rng: &mut Rng, _index: u64) -> Plan {
 	let attempts = rng.range(1, 4) as u32;
 	let tail = 14 + p.faults.iter().map(|f| f.count as u32).sum::<u32>();
 	p.ops = vec![
-		Op::Run { attempts, max_virtual_s: 20_000, only: vec![] },
+		Op::Run {
+			attempts,
+			max_virtual_s: 20_000,
+			only: vec![],
+		},
 		// fault-free tail: long enough for every remaining scripted fault to be consumed or skipped
-		Op::Run { attempts: tail, max_virtual_s: 100_000, only: vec![] },
+		Op::Run {
+			attempts: tail,
+			max_virtual_s: 100_000,
+			only: vec![],
+		},
 	];
 	p
 }
@@ -379,7 +470,14 @@ fn f3m(rng: &mut Rng, _index: u64) -> Plan {
 			any_healthy = true;
 			continue;
 		}
-		let class = ["newOrder", "authz", "challenge", "finalize", "certificate", "authzPoll"][rng.below(6) as usize];
+		let class = [
+			"newOrder",
+			"authz",
+			"challenge",
+			"finalize",
+			"certificate",
+			"authzPoll",
+		][rng.below(6) as usize];
 		p.faults.push(Fault {
 			site: "net".into(),
 			ca: 0,
@@ -392,14 +490,46 @@ fn f3m(rng: &mut Rng, _index: u64) -> Plan {
 		});
 	}
 	// the healthy ones need one attempt each; the failing ones loop meanwhile
-	let healthy: Vec<usize> = (0..n).filter(|i| !p.faults.iter().any(|f| f.cert == Some(*i))).collect();
-	p.ops = vec![Op::Run { attempts: 1, max_virtual_s: 3_000, only: healthy }];
+	let healthy: Vec<usize> = (0..n)
+		.filter(|i| !p.faults.iter().any(|f| f.cert == Some(*i)))
+		.collect();
+	p.ops = vec![Op::Run {
+		attempts: 1,
+		max_virtual_s: 3_000,
+		only: healthy,
+	}];
 	p.sched.max_events = 100_000;
 	p
 }
 
-const PERIODS: [&str; 12] = ["0s", "1s", "90s", "1h", "36h", "1d", "2w", "30d", "45d12h", "100d", "1w2d3h4m5s", "400d"];
-const LIFETIMES: [i64; 12] = [-86400, 0, 60, 3600, 86400, 7 * 86400, 30 * 86400, 90 * 86400, 90 * 86400, 365 * 86400, 3650 * 86400, 398 * 86400];
+const PERIODS: [&str; 12] = [
+	"0s",
+	"1s",
+	"90s",
+	"1h",
+	"36h",
+	"1d",
+	"2w",
+	"30d",
+	"45d12h",
+	"100d",
+	"1w2d3h4m5s",
+	"400d",
+];
+const LIFETIMES: [i64; 12] = [
+	-86400,
+	0,
+	60,
+	3600,
+	86400,
+	7 * 86400,
+	30 * 86400,
+	90 * 86400,
+	90 * 86400,
+	365 * 86400,
+	3650 * 86400,
+	398 * 86400,
+];
 
 /// F4: renewal histories over months..years of virtual time: lifetimes, chain lengths and SAN
 /// modes vary per issuance; renew_delay / random_early_renew incl. 0 and values above the lifetime;
@@ -417,15 +547,21 @@ fn f4(rng: &mut Rng, _index: u64) -> Plan {
 			c.renew_delay = Some(PERIODS[rng.below(PERIODS.len() as u64) as usize].to_string());
 		}
 		if rng.chance(3, 5) {
-			c.random_early_renew = Some(PERIODS[rng.below(PERIODS.len() as u64) as usize].to_string());
+			c.random_early_renew =
+				Some(PERIODS[rng.below(PERIODS.len() as u64) as usize].to_string());
 		}
 	}
 	if rng.chance(1, 5) {
-		p.config.global.renew_delay = Some(PERIODS[rng.below(PERIODS.len() as u64) as usize].to_string());
+		p.config.global.renew_delay =
+			Some(PERIODS[rng.below(PERIODS.len() as u64) as usize].to_string());
 	}
 	let k = &mut p.cas[0].knobs;
-	k.lifetime_s = (0..rng.range(1, 4)).map(|_| LIFETIMES[rng.below(LIFETIMES.len() as u64) as usize]).collect();
-	k.chain_len = (0..rng.range(1, 4)).map(|_| rng.range(1, 4) as u32).collect();
+	k.lifetime_s = (0..rng.range(1, 4))
+		.map(|_| LIFETIMES[rng.below(LIFETIMES.len() as u64) as usize])
+		.collect();
+	k.chain_len = (0..rng.range(1, 4))
+		.map(|_| rng.range(1, 4) as u32)
+		.collect();
 	k.san_mode = match rng.below(10) {
 		0 => "permuted".into(),
 		1 => "extra".into(),
@@ -436,16 +572,32 @@ fn f4(rng: &mut Rng, _index: u64) -> Plan {
 	p.sched.jitter = ["seeded", "min", "max"][rng.below(3) as usize].to_string();
 	p.sched.net_us.1 = p.sched.net_us.1.min(80_000);
 	let horizon = 4000 * 86400;
-	let mut ops = vec![Op::Run { attempts: rng.range(1, 4) as u32, max_virtual_s: horizon, only: vec![] }];
+	let mut ops = vec![Op::Run {
+		attempts: rng.range(1, 4) as u32,
+		max_virtual_s: horizon,
+		only: vec![],
+	}];
 	for _ in 0..rng.below(3) {
 		ops.push(Op::Stop);
 		match rng.below(4) {
-			0 => ops.push(Op::RemoveFile { cert: rng.below(n as u64) as usize, which: "crt".into() }),
-			1 => ops.push(Op::RemoveFile { cert: rng.below(n as u64) as usize, which: "pk".into() }),
-			2 => ops.push(Op::Skew { seconds: [-86400 * 40, -3600, 3600, 86400 * 40, 86400 * 400][rng.below(5) as usize] }),
+			0 => ops.push(Op::RemoveFile {
+				cert: rng.below(n as u64) as usize,
+				which: "crt".into(),
+			}),
+			1 => ops.push(Op::RemoveFile {
+				cert: rng.below(n as u64) as usize,
+				which: "pk".into(),
+			}),
+			2 => ops.push(Op::Skew {
+				seconds: [-86400 * 40, -3600, 3600, 86400 * 40, 86400 * 400][rng.below(5) as usize],
+			}),
 			_ => {}
 		}
-		ops.push(Op::Run { attempts: rng.range(1, 3) as u32, max_virtual_s: horizon, only: vec![] });
+		ops.push(Op::Run {
+			attempts: rng.range(1, 3) as u32,
+			max_virtual_s: horizon,
+			only: vec![],
+		});
 	}
 	p.ops = ops;
 	p
@@ -455,20 +607,35 @@ fn f4(rng: &mut Rng, _index: u64) -> Plan {
 /// challenge types, in both declaration orders; all 3x3 (base, wildcard) type pairs are cycled
 /// through by the index (wildcards with http-01/tls-alpn-01 need a CA that offers them).
 fn f1w(rng: &mut Rng, index: u64) -> Plan {
-	let opts = super::f1::F1Opts { max_certs: 2, max_ids: 3, generated_hooks: false, hard_hook_failures: false, owners: false, eab: false, allow_rsa4096: false };
+	let opts = super::f1::F1Opts {
+		max_certs: 2,
+		max_ids: 3,
+		generated_hooks: false,
+		hard_hook_failures: false,
+		owners: false,
+		eab: false,
+		allow_rsa4096: false,
+	};
 	let mut p = super::f1::build(rng, &opts);
 	let chs = ["http-01", "dns-01", "tls-alpn-01"];
 	let base_ch = chs[(index % 3) as usize];
 	let wild_ch = chs[((index / 3) % 3) as usize];
 	let wild_first = (index / 9) % 2 == 0;
 	let name = format!("pair{}.{}", index % 1000, dns_name(rng, false));
-	let mut pair = vec![ident(&name, base_ch), ident(&format!("*.{}", name), wild_ch)];
+	let mut pair = vec![
+		ident(&name, base_ch),
+		ident(&format!("*.{}", name), wild_ch),
+	];
 	if wild_first {
 		pair.reverse();
 	}
 	let c = &mut p.config.certificates[0];
 	let keep: Vec<IdentCfg> = c.identifiers.drain(..).take(1).collect();
-	c.identifiers = if rng.chance(1, 2) { pair.into_iter().chain(keep.into_iter()).collect() } else { keep.into_iter().chain(pair.into_iter()).collect() };
+	c.identifiers = if rng.chance(1, 2) {
+		pair.into_iter().chain(keep.into_iter()).collect()
+	} else {
+		keep.into_iter().chain(pair.into_iter()).collect()
+	};
 	for ca in p.cas.iter_mut() {
 		ca.knobs.offer = vec!["http-01".into(), "dns-01".into(), "tls-alpn-01".into()];
 		ca.knobs.wildcard_any = wild_ch != "dns-01" || rng.chance(1, 2);
@@ -484,7 +651,9 @@ fn f7(rng: &mut Rng, _index: u64) -> Plan {
 	let n = rng.range(1, 6) as usize;
 	let mut p = simple_plan(rng, n);
 	let n_acc = rng.range(1, 3) as usize;
-	p.config.accounts = (0..n_acc).map(|a| account(&format!("acc{}", a), CHEAP_KEY_TYPES[rng.below(5) as usize])).collect();
+	p.config.accounts = (0..n_acc)
+		.map(|a| account(&format!("acc{}", a), CHEAP_KEY_TYPES[rng.below(5) as usize]))
+		.collect();
 	for c in p.config.certificates.iter_mut() {
 		c.account = format!("acc{}", rng.below(n_acc as u64));
 	}
@@ -497,7 +666,11 @@ fn f7(rng: &mut Rng, _index: u64) -> Plan {
 			2 => (rng.range(1, 3), "1s".to_string()),
 			_ => (rng.range(1, 20), format!("{}s", rng.range(1, 10))),
 		};
-		p.config.rate_limits.push(RateLimitCfg { name: format!("rl{}", i), number, period });
+		p.config.rate_limits.push(RateLimitCfg {
+			name: format!("rl{}", i),
+			number,
+			period,
+		});
 		names.push(format!("rl{}", i));
 	}
 	p.config.endpoints[0].rate_limits = names;
@@ -516,18 +689,32 @@ fn f7(rng: &mut Rng, _index: u64) -> Plan {
 		p.faults.push(Fault {
 			site: "net".into(),
 			ca: 0,
-			class: ["newOrder", "authz", "challenge", "finalize", "authzPoll"][rng.below(5) as usize].into(),
+			class: ["newOrder", "authz", "challenge", "finalize", "authzPoll"]
+				[rng.below(5) as usize]
+				.into(),
 			nth: rng.range(1, 3),
 			count: rng.range(1, 9),
-			kind: FaultKind::Acme { typ: kinds[rng.below(4) as usize].into(), status: 400, detail: Some("retry storm".into()) },
+			kind: FaultKind::Acme {
+				typ: kinds[rng.below(4) as usize].into(),
+				status: 400,
+				detail: Some("retry storm".into()),
+			},
 			..Default::default()
 		});
 	}
 	p.sched.net_us = (100, [200u64, 5_000, 80_000][rng.below(3) as usize]);
-	p.ops = vec![Op::Run { attempts: if renewals { rng.range(2, 3) as u32 } else { 1 }, max_virtual_s: 400_000, only: vec![] }];
+	p.ops = vec![Op::Run {
+		attempts: if renewals { rng.range(2, 3) as u32 } else { 1 },
+		max_virtual_s: 400_000,
+		only: vec![],
+	}];
 	if !p.faults.is_empty() {
 		// a storm may exhaust the 10 transmissions of one request: give the attempt(s) room to be redone
-		p.ops.push(Op::Run { attempts: 3, max_virtual_s: 400_000, only: vec![] });
+		p.ops.push(Op::Run {
+			attempts: 3,
+			max_virtual_s: 400_000,
+			only: vec![],
+		});
 	}
 	p.sched.max_events = 400_000;
 	p
@@ -541,9 +728,30 @@ fn f5(rng: &mut Rng, _index: u64) -> Plan {
 	let mut p = simple_plan(rng, n);
 	let n_acc = rng.range(1, 3) as usize;
 	let n_ep = rng.range(1, 3) as usize;
-	p.config.accounts = (0..n_acc).map(|a| account(&format!("acc{}", a), CHEAP_KEY_TYPES[rng.below(5) as usize])).collect();
-	p.config.endpoints = (0..n_ep).map(|e| EndpointCfg { name: format!("ep{}", e), ca: e, rate_limits: vec![], tos_agreed: true }).collect();
-	p.cas = (0..n_ep).map(|e| CaCfg { host: format!("ca{}.sim", e), knobs: super::f1::ca_knobs(rng, &["http-01".to_string(), "dns-01".to_string(), "tls-alpn-01".to_string()]) }).collect();
+	p.config.accounts = (0..n_acc)
+		.map(|a| account(&format!("acc{}", a), CHEAP_KEY_TYPES[rng.below(5) as usize]))
+		.collect();
+	p.config.endpoints = (0..n_ep)
+		.map(|e| EndpointCfg {
+			name: format!("ep{}", e),
+			ca: e,
+			rate_limits: vec![],
+			tos_agreed: true,
+		})
+		.collect();
+	p.cas = (0..n_ep)
+		.map(|e| CaCfg {
+			host: format!("ca{}.sim", e),
+			knobs: super::f1::ca_knobs(
+				rng,
+				&[
+					"http-01".to_string(),
+					"dns-01".to_string(),
+					"tls-alpn-01".to_string(),
+				],
+			),
+		})
+		.collect();
 	for ca in p.cas.iter_mut() {
 		ca.knobs.offer = vec!["http-01".into(), "dns-01".into(), "tls-alpn-01".into()];
 		ca.knobs.nonce_ttl_s = None;
@@ -553,27 +761,63 @@ fn f5(rng: &mut Rng, _index: u64) -> Plan {
 		c.account = format!("acc{}", rng.below(n_acc as u64));
 		c.endpoint = format!("ep{}", rng.below(n_ep as u64));
 	}
-	p.sched.net_us = (100, [150u64, 2_000, 80_000, 1_000_000][rng.below(4) as usize]);
-	let mut ops = vec![Op::Run { attempts: 1, max_virtual_s: 50_000, only: vec![] }];
+	p.sched.net_us = (
+		100,
+		[150u64, 2_000, 80_000, 1_000_000][rng.below(4) as usize],
+	);
+	let mut ops = vec![Op::Run {
+		attempts: 1,
+		max_virtual_s: 50_000,
+		only: vec![],
+	}];
 	for _ in 0..rng.below(3) {
 		match rng.below(4) {
 			0 => {
-				ops.push(Op::CaForget { ca: rng.below(n_ep as u64) as usize, account: format!("acc{}", rng.below(n_acc as u64)) });
-				ops.push(Op::Run { attempts: 2, max_virtual_s: 50_000, only: vec![] });
+				ops.push(Op::CaForget {
+					ca: rng.below(n_ep as u64) as usize,
+					account: format!("acc{}", rng.below(n_acc as u64)),
+				});
+				ops.push(Op::Run {
+					attempts: 2,
+					max_virtual_s: 50_000,
+					only: vec![],
+				});
 			}
 			1 => {
 				ops.push(Op::Stop);
 				let a = format!("acc{}", rng.below(n_acc as u64));
-				ops.push(Op::Edit { patch: vec![EditItem::Contacts { account: a, contacts: vec![format!("new{}@example.org", rng.below(100))] }] });
-				ops.push(Op::Run { attempts: 1, max_virtual_s: 50_000, only: vec![] });
+				ops.push(Op::Edit {
+					patch: vec![EditItem::Contacts {
+						account: a,
+						contacts: vec![format!("new{}@example.org", rng.below(100))],
+					}],
+				});
+				ops.push(Op::Run {
+					attempts: 1,
+					max_virtual_s: 50_000,
+					only: vec![],
+				});
 			}
 			2 => {
 				ops.push(Op::Stop);
 				let a = format!("acc{}", rng.below(n_acc as u64));
-				ops.push(Op::Edit { patch: vec![EditItem::KeyType { account: a, key_type: CHEAP_KEY_TYPES[rng.below(5) as usize].to_string() }] });
-				ops.push(Op::Run { attempts: 1, max_virtual_s: 50_000, only: vec![] });
+				ops.push(Op::Edit {
+					patch: vec![EditItem::KeyType {
+						account: a,
+						key_type: CHEAP_KEY_TYPES[rng.below(5) as usize].to_string(),
+					}],
+				});
+				ops.push(Op::Run {
+					attempts: 1,
+					max_virtual_s: 50_000,
+					only: vec![],
+				});
 			}
-			_ => ops.push(Op::Run { attempts: 1, max_virtual_s: 50_000, only: vec![] }),
+			_ => ops.push(Op::Run {
+				attempts: 1,
+				max_virtual_s: 50_000,
+				only: vec![],
+			}),
 		}
 	}
 	p.ops = ops;
@@ -597,11 +841,30 @@ fn f2b(index: u64) -> Option<Plan> {
 	p.config.certificates[0].identifiers = if (v / 12) % 2 == 0 {
 		vec![ident("only.grid.sim", "http-01")]
 	} else {
-		vec![ident("a.grid.sim", "tls-alpn-01"), ident("b.grid.sim", "dns-01"), ident("c.grid.sim", "http-01")]
+		vec![
+			ident("a.grid.sim", "tls-alpn-01"),
+			ident("b.grid.sim", "dns-01"),
+			ident("c.grid.sim", "http-01"),
+		]
 	};
-	p.config.accounts[0].key_type = Some(["ed448", "ecdsa-p521", "ecdsa-p256"][((v / 4) % 3) as usize].into());
-	p.faults.push(Fault { site: "net".into(), ca: 0, class: class.into(), nth, count: 1, kind: kinds[g[2] as usize].clone(), ..Default::default() });
-	p.note = format!("F2b base {} {}#{} x {}", v, class, nth, super::super::ca::fault_name(&kinds[g[2] as usize]));
+	p.config.accounts[0].key_type =
+		Some(["ed448", "ecdsa-p521", "ecdsa-p256"][((v / 4) % 3) as usize].into());
+	p.faults.push(Fault {
+		site: "net".into(),
+		ca: 0,
+		class: class.into(),
+		nth,
+		count: 1,
+		kind: kinds[g[2] as usize].clone(),
+		..Default::default()
+	});
+	p.note = format!(
+		"F2b base {} {}#{} x {}",
+		v,
+		class,
+		nth,
+		super::super::ca::fault_name(&kinds[g[2] as usize])
+	);
 	Some(p)
 }
 
@@ -611,16 +874,58 @@ const HOOK_EXITS: [i32; 7] = [1, 2, 126, 127, 255, -1, -2];
 /// certificate and account) x invocation 1..3 x exit status kind (codes, death by signal, spawn
 /// failure) x 4 base plans; two attempts.
 fn f2h(index: u64) -> Option<Plan> {
-	let hooks = ["h-http", "h-http-clean", "h-dns", "h-dns-clean", "h-post", "h-file"];
+	let hooks = [
+		"h-http",
+		"h-http-clean",
+		"h-dns",
+		"h-dns-clean",
+		"h-post",
+		"h-file",
+	];
 	let g = grid(index, &[4, hooks.len() as u64, 3, HOOK_EXITS.len() as u64])?;
 	let mut p = grid_base(g[0], 2);
-	let hf = hook("h-file", &["file-pre-create", "file-post-create", "file-pre-edit", "file-post-edit"], file_args("h-file"));
+	let hf = hook(
+		"h-file",
+		&[
+			"file-pre-create",
+			"file-post-create",
+			"file-pre-edit",
+			"file-post-edit",
+		],
+		file_args("h-file"),
+	);
 	p.config.hooks.push(hf);
 	p.config.certificates[0].hooks.push("h-file".into());
 	p.config.accounts[0].hooks = vec!["h-file".into()];
-	p.faults.push(Fault { site: "proc".into(), hook: hooks[g[1] as usize].into(), nth: g[2] + 1, count: 1, kind: FaultKind::Exit { code: HOOK_EXITS[g[3] as usize] }, ..Default::default() });
-	p.ops = vec![Op::Run { attempts: 2, max_virtual_s: 7200, only: vec![] }, Op::Run { attempts: 2, max_virtual_s: 7200, only: vec![] }];
-	p.note = format!("F2h base {} hook {} call {} exit {}", g[0], hooks[g[1] as usize], g[2] + 1, HOOK_EXITS[g[3] as usize]);
+	p.faults.push(Fault {
+		site: "proc".into(),
+		hook: hooks[g[1] as usize].into(),
+		nth: g[2] + 1,
+		count: 1,
+		kind: FaultKind::Exit {
+			code: HOOK_EXITS[g[3] as usize],
+		},
+		..Default::default()
+	});
+	p.ops = vec![
+		Op::Run {
+			attempts: 2,
+			max_virtual_s: 7200,
+			only: vec![],
+		},
+		Op::Run {
+			attempts: 2,
+			max_virtual_s: 7200,
+			only: vec![],
+		},
+	];
+	p.note = format!(
+		"F2h base {} hook {} call {} exit {}",
+		g[0],
+		hooks[g[1] as usize],
+		g[2] + 1,
+		HOOK_EXITS[g[3] as usize]
+	);
 	Some(p)
 }
 
@@ -632,7 +937,17 @@ fn f2s(index: u64) -> Option<Plan> {
 	let sels = ["pk:0", "crt:0", "account:acc"];
 	let ops = ["open_w", "open_r", "read", "write"];
 	let errs = ["EIO", "ENOSPC", "EACCES"];
-	let g = grid(index, &[4, sels.len() as u64, ops.len() as u64, errs.len() as u64, 2, 2])?;
+	let g = grid(
+		index,
+		&[
+			4,
+			sels.len() as u64,
+			ops.len() as u64,
+			errs.len() as u64,
+			2,
+			2,
+		],
+	)?;
 	let mut p = grid_base(g[0], 2);
 	p.faults.push(Fault {
 		site: "fs".into(),
@@ -640,12 +955,34 @@ fn f2s(index: u64) -> Option<Plan> {
 		fsop: ops[g[2] as usize].into(),
 		nth: g[4] + 1,
 		count: 1,
-		kind: FaultKind::Errno { errno: errs[g[3] as usize].into(), after: if g[5] == 0 { 0 } else { 57 } },
+		kind: FaultKind::Errno {
+			errno: errs[g[3] as usize].into(),
+			after: if g[5] == 0 { 0 } else { 57 },
+		},
 		..Default::default()
 	});
 	p.sched.chunk = (16, 64);
-	p.ops = vec![Op::Run { attempts: 2, max_virtual_s: 7200, only: vec![] }, Op::Run { attempts: 2, max_virtual_s: 7200, only: vec![] }];
-	p.note = format!("F2s base {} {} {} {} nth {} after {}", g[0], sels[g[1] as usize], ops[g[2] as usize], errs[g[3] as usize], g[4] + 1, g[5]);
+	p.ops = vec![
+		Op::Run {
+			attempts: 2,
+			max_virtual_s: 7200,
+			only: vec![],
+		},
+		Op::Run {
+			attempts: 2,
+			max_virtual_s: 7200,
+			only: vec![],
+		},
+	];
+	p.note = format!(
+		"F2s base {} {} {} {} nth {} after {}",
+		g[0],
+		sels[g[1] as usize],
+		ops[g[2] as usize],
+		errs[g[3] as usize],
+		g[4] + 1,
+		g[5]
+	);
 	Some(p)
 }
 
@@ -659,11 +996,23 @@ fn f6k(index: u64) -> Option<Plan> {
 	let keep = p.ops.len() - 3;
 	p.ops.truncate(keep);
 	p.ops.push(Op::Stop);
-	p.ops.push(Op::Edit { patch: vec![EditItem::KeyType { account: "acc".into(), key_type: b.to_string() }] });
+	p.ops.push(Op::Edit {
+		patch: vec![EditItem::KeyType {
+			account: "acc".into(),
+			key_type: b.to_string(),
+		}],
+	});
 	for _ in 0..2 {
 		p.ops.push(Op::Stop);
-		p.ops.push(Op::RemoveFile { cert: 0, which: "crt".into() });
-		p.ops.push(Op::Run { attempts: 2, max_virtual_s: 6000, only: vec![0] });
+		p.ops.push(Op::RemoveFile {
+			cert: 0,
+			which: "crt".into(),
+		});
+		p.ops.push(Op::Run {
+			attempts: 2,
+			max_virtual_s: 6000,
+			only: vec![0],
+		});
 	}
 	p.note = format!("F6k roll-over {} -> {}", a, b);
 	Some(p)
@@ -677,7 +1026,8 @@ fn f4g(index: u64) -> Option<Plan> {
 	let g = grid(index, &[3, 6, 6, 3])?;
 	let l = lifes[g[0] as usize];
 	let rd = [0, 1, l - 1, l, l + 1, 10 * l][g[1] as usize];
-	let rer: Option<u64> = [None, Some(0), Some(1), Some(l / 2), Some(l), Some(10 * l)][g[2] as usize];
+	let rer: Option<u64> =
+		[None, Some(0), Some(1), Some(l / 2), Some(l), Some(10 * l)][g[2] as usize];
 	let mut rng = Rng::new(0xF46 ^ index);
 	let mut p = simple_plan(&mut rng, 1);
 	p.config.certificates[0].renew_delay = Some(format!("{}s", rd));
@@ -685,8 +1035,15 @@ fn f4g(index: u64) -> Option<Plan> {
 	p.cas[0].knobs.lifetime_s = vec![l as i64];
 	p.sched.jitter = ["min", "max", "seeded"][g[3] as usize].into();
 	p.sched.net_us = (100, 2000);
-	p.ops = vec![Op::Run { attempts: 3, max_virtual_s: 3 * l + 100_000, only: vec![] }];
-	p.note = format!("F4g lifetime {} s renew_delay {} s random_early_renew {:?} jitter {}", l, rd, rer, p.sched.jitter);
+	p.ops = vec![Op::Run {
+		attempts: 3,
+		max_virtual_s: 3 * l + 100_000,
+		only: vec![],
+	}];
+	p.note = format!(
+		"F4g lifetime {} s renew_delay {} s random_early_renew {:?} jitter {}",
+		l, rd, rer, p.sched.jitter
+	);
 	Some(p)
 }
 
@@ -696,12 +1053,22 @@ fn f4c(index: u64) -> Option<Plan> {
 	let g = grid(index, &[4, 4, 3])?;
 	let mut rng = Rng::new(0xF4C ^ index);
 	let mut p = simple_plan(&mut rng, 1);
-	p.config.certificates[0].key_type = Some(["ecdsa-p256", "ed25519", "rsa2048"][g[2] as usize].into());
+	p.config.certificates[0].key_type =
+		Some(["ecdsa-p256", "ed25519", "rsa2048"][g[2] as usize].into());
 	p.config.certificates[0].kp_reuse = Some(false);
 	p.cas[0].knobs.chain_len = vec![g[0] as u32 + 1, g[1] as u32 + 1];
 	p.cas[0].knobs.lifetime_s = vec![3600];
-	p.ops = vec![Op::Run { attempts: 2, max_virtual_s: 20_000, only: vec![] }];
-	p.note = format!("F4c chain {} then {} key {}", g[0] + 1, g[1] + 1, p.config.certificates[0].key_type.clone().unwrap());
+	p.ops = vec![Op::Run {
+		attempts: 2,
+		max_virtual_s: 20_000,
+		only: vec![],
+	}];
+	p.note = format!(
+		"F4c chain {} then {} key {}",
+		g[0] + 1,
+		g[1] + 1,
+		p.config.certificates[0].key_type.clone().unwrap()
+	);
 	Some(p)
 }
 
@@ -733,7 +1100,11 @@ fn f1o(index: u64) -> Option<Plan> {
 	}
 	p.world.umask = [0o022u32, 0o077, 0o027, 0o000][g[1] as usize];
 	p.cas[0].knobs.lifetime_s = vec![3600];
-	p.ops = vec![Op::Run { attempts: 2, max_virtual_s: 20_000, only: vec![] }];
+	p.ops = vec![Op::Run {
+		attempts: 2,
+		max_virtual_s: 20_000,
+		only: vec![],
+	}];
 	p.note = format!("F1o options {:06b} umask {:o}", bits, p.world.umask);
 	Some(p)
 }
@@ -749,7 +1120,13 @@ fn f1s(index: u64) -> Option<Plan> {
 	let c = &mut p.config.certificates[0];
 	for (i, k) in super::f1::SUBJECT_KEYS.iter().enumerate() {
 		if index & (1 << i) != 0 {
-			let v = if *k == "country_name" { "FR".to_string() } else if *k == "pkcs9_email_address" { "a@example.org".to_string() } else { format!("v{} {}", i, index % 97) };
+			let v = if *k == "country_name" {
+				"FR".to_string()
+			} else if *k == "pkcs9_email_address" {
+				"a@example.org".to_string()
+			} else {
+				format!("v{} {}", i, index % 97)
+			};
 			c.subject_attributes.insert(k.to_string(), v);
 		}
 	}
@@ -768,10 +1145,27 @@ fn f2f(index: u64) -> Option<Plan> {
 	let g = grid(index, &[ALL_POSITIONS.len() as u64, kinds.len() as u64])?;
 	let (class, nth) = ALL_POSITIONS[g[0] as usize];
 	let mut p = grid_base(0, 2);
-	p.faults.push(Fault { site: "net".into(), ca: 0, class: class.into(), nth, count: 1_000_000_000, kind: kinds[g[1] as usize].clone(), ..Default::default() });
-	p.ops = vec![Op::Run { attempts: 2, max_virtual_s: 6000, only: vec![] }];
+	p.faults.push(Fault {
+		site: "net".into(),
+		ca: 0,
+		class: class.into(),
+		nth,
+		count: 1_000_000_000,
+		kind: kinds[g[1] as usize].clone(),
+		..Default::default()
+	});
+	p.ops = vec![Op::Run {
+		attempts: 2,
+		max_virtual_s: 6000,
+		only: vec![],
+	}];
 	p.sched.max_events = 80_000;
-	p.note = format!("F2f {}#{} x {} for ever", class, nth, super::super::ca::fault_name(&kinds[g[1] as usize]));
+	p.note = format!(
+		"F2f {}#{} x {} for ever",
+		class,
+		nth,
+		super::super::ca::fault_name(&kinds[g[1] as usize])
+	);
 	Some(p)
 }
 
@@ -780,12 +1174,70 @@ fn f2f(index: u64) -> Option<Plan> {
 fn f2q(index: u64) -> Option<Plan> {
 	let kinds = error_kinds();
 	let runs = [1u64, 9, 10, 11];
-	let g = grid(index, &[5, POST_POSITIONS.len() as u64, kinds.len() as u64, runs.len() as u64])?;
+	let g = grid(
+		index,
+		&[
+			5,
+			POST_POSITIONS.len() as u64,
+			kinds.len() as u64,
+			runs.len() as u64,
+		],
+	)?;
 	let (class, nth) = POST_POSITIONS[g[1] as usize];
 	let mut p = grid_base([1, 2, 3, 0, 0][g[0] as usize], 1);
-	p.config.accounts[0].key_type = Some(["ecdsa-p256", "ed25519", "ecdsa-p521", "rsa2048", "ed448"][g[0] as usize].into());
+	p.config.accounts[0].key_type =
+		Some(["ecdsa-p256", "ed25519", "ecdsa-p521", "rsa2048", "ed448"][g[0] as usize].into());
 	p.cas[0].knobs.nonce_on_get = g[0] % 2 == 1;
-	p.faults.push(Fault { site: "net".into(), ca: 0, class: class.into(), nth, count: runs[g[3] as usize], kind: kinds[g[2] as usize].clone(), ..Default::default() });
-	p.note = format!("F2q base {} {}#{} x {} x run {}", g[0], class, nth, super::super::ca::fault_name(&kinds[g[2] as usize]), runs[g[3] as usize]);
+	p.faults.push(Fault {
+		site: "net".into(),
+		ca: 0,
+		class: class.into(),
+		nth,
+		count: runs[g[3] as usize],
+		kind: kinds[g[2] as usize].clone(),
+		..Default::default()
+	});
+	p.note = format!(
+		"F2q base {} {}#{} x {} x run {}",
+		g[0],
+		class,
+		nth,
+		super::super::ca::fault_name(&kinds[g[2] as usize]),
+		runs[g[3] as usize]
+	);
+	Some(p)
+}
+
+/// F4t: "twins": one certificate requested with two key types (same name or same first identifier,
+/// same identifiers, same directory): every ordered pair of the five cheap key types x named/unnamed
+/// x kp_reuse x 3 initial orders of the certificate table; first issuance and one renewal of both.
+/// Their ids and file names differ by the key type only.
+fn f4t(index: u64) -> Option<Plan> {
+	let g = grid(index, &[20, 2, 2, 3])?;
+	let mut rng = Rng::new(0xF47 ^ index);
+	let mut p = simple_plan(&mut rng, 1);
+	let (a, b) = {
+		let a = g[0] / 4;
+		let mut b = g[0] % 4;
+		if b >= a {
+			b += 1;
+		}
+		(a as usize, b as usize)
+	};
+	p.config.certificates[0].key_type = Some(CHEAP_KEY_TYPES[a].to_string());
+	p.config.certificates[0].kp_reuse = Some(g[2] == 1);
+	p.config.certificates[0].name = if g[1] == 1 { Some("twin".into()) } else { None };
+	let mut twin = p.config.certificates[0].clone();
+	twin.key_type = Some(CHEAP_KEY_TYPES[b].to_string());
+	p.config.certificates.push(twin);
+	p.world.pre_files.clear();
+	p.cas[0].knobs.lifetime_s = vec![3600];
+	p.sched.map_salt = g[3];
+	p.ops = vec![Op::Run {
+		attempts: 2,
+		max_virtual_s: 20_000,
+		only: vec![],
+	}];
+	p.note = format!("F4t twins {} / {}, named {}, kp_reuse {}, salt {}", CHEAP_KEY_TYPES[a], CHEAP_KEY_TYPES[b], g[1], g[2], g[3]);
 	Some(p)
 }
